@@ -193,7 +193,10 @@ Definition p_int_constant : parser Z :=
            do i, v <- alt [ (fun i => do i, _ <- tag sym_int_hex i ;;
                                       map_res hex_digit1 (parse_unsigned 16 i64_max) i);
                             map_res digit1 (parse_unsigned 10 i64_max) ] i ;;
-           POk i (if Nat.odd minus then - v else v).
+           (* Ok((input, if minus % 2 == 1 { IntConstant(-v.0) } else { v })): the negation is the one panic-capable
+              operation of the parser files (inventory: Generated/IdlPanics.v); it panics on i64::MIN *)
+           if Nat.odd minus then match checked_neg v with Some n => POk i n | None => PPanic SiteNeg end
+           else POk i v.
 
 (* tuple((tag_no_case("e"), IntConstant::parse)) *)
 Definition p_exponent (e : list byte) : parser unit :=
